@@ -54,6 +54,7 @@ type Seen struct {
 	At         time.Time
 	CtxDoneAt  time.Time // when the request context died while the handler was still running (zero if not)
 	FinishedAt time.Time
+	UpgradeIn  []byte // bytes received on the connection after a 101 answer
 }
 
 // Reply scripts the answer of a stub upstream for one request id.
@@ -66,6 +67,7 @@ type Reply struct {
 	Stream  bool          // stream chunks every StreamEvery until Hold is closed or the context dies
 	Every   time.Duration
 	Reset   bool          // hijack and close the connection after writing headers + half the body
+	Upgrade string        // non-empty: an upgrade request is answered 101 with this protocol; Body is sent first, then every byte received is echoed XOR 0x5a
 	started chan struct{} // closed when the handler has started
 }
 
@@ -213,6 +215,49 @@ func (u *Upstream) serve(w http.ResponseWriter, r *http.Request) {
 			s.CtxDoneAt = time.Now()
 		}
 		u.mu.Unlock()
+	}
+	if rep.Upgrade != "" && r.Header.Get("Upgrade") != "" {
+		hj, ok := w.(http.Hijacker)
+		if !ok {
+			w.WriteHeader(500)
+			return
+		}
+		c, brw, err := hj.Hijack()
+		if err != nil {
+			return
+		}
+		defer c.Close()
+		fmt.Fprintf(brw, "HTTP/1.1 101 Switching Protocols\r\nConnection: Upgrade\r\nUpgrade: %s\r\nX-Verif-Upstream: %d\r\n", rep.Upgrade, u.Index)
+		for k, vv := range rep.Header {
+			for _, v := range vv {
+				fmt.Fprintf(brw, "%s: %s\r\n", k, v)
+			}
+		}
+		brw.WriteString("\r\n")
+		brw.Write(rep.Body)
+		brw.Flush()
+		buf := make([]byte, 4096)
+		for {
+			_ = c.SetReadDeadline(time.Now().Add(30 * time.Second))
+			n, err := brw.Read(buf)
+			if n > 0 {
+				u.mu.Lock()
+				s.UpgradeIn = append(s.UpgradeIn, buf[:n]...)
+				u.mu.Unlock()
+				out := make([]byte, n)
+				for i := 0; i < n; i++ {
+					out[i] = buf[i] ^ 0x5a
+				}
+				if _, werr := c.Write(out); werr != nil {
+					markDone()
+					return
+				}
+			}
+			if err != nil {
+				markDone()
+				return
+			}
+		}
 	}
 	if rep.Hold != nil && !rep.Stream {
 		select {
@@ -449,14 +494,20 @@ type RawRequest struct {
 	Headers [][2]string // in order, names as written
 	Body    []byte
 	Chunked bool
+	// Upgrade: non-empty sends "Connection: Upgrade" + "Upgrade: <value>"; after a 101 answer the UpgradeWrites are
+	// written one by one and UpgradeExpect bytes are read back
+	Upgrade       string
+	UpgradeWrites [][]byte
+	UpgradeExpect int
 }
 
 // Response is what the client got.
 type Response struct {
-	Status int
-	Header http.Header
-	Body   []byte
-	Err    error
+	Status   int
+	Header   http.Header
+	Body     []byte
+	Err      error
+	Upgraded []byte // bytes read after a 101 answer
 }
 
 // Do writes the request on a new TCP connection to the gateway and reads one response.
@@ -487,7 +538,11 @@ func (g *Gateway) Do(ctx context.Context, r RawRequest) Response {
 	} else if len(r.Body) > 0 || r.Method == "POST" || r.Method == "PUT" || r.Method == "PATCH" {
 		fmt.Fprintf(&buf, "Content-Length: %d\r\n", len(r.Body))
 	}
-	buf.WriteString("Connection: close\r\n\r\n")
+	if r.Upgrade != "" {
+		fmt.Fprintf(&buf, "Connection: Upgrade\r\nUpgrade: %s\r\n\r\n", r.Upgrade)
+	} else {
+		buf.WriteString("Connection: close\r\n\r\n")
+	}
 	if r.Chunked {
 		for off := 0; off < len(r.Body); {
 			n := 1000
@@ -506,11 +561,34 @@ func (g *Gateway) Do(ctx context.Context, r RawRequest) Response {
 	if _, err := conn.Write(buf.Bytes()); err != nil {
 		return Response{Err: err}
 	}
-	resp, err := http.ReadResponse(newReader(conn), &http.Request{Method: r.Method})
+	br := newReader(conn)
+	resp, err := http.ReadResponse(br, &http.Request{Method: r.Method})
 	if err != nil {
 		return Response{Err: err}
 	}
 	defer resp.Body.Close()
+	if r.Upgrade != "" && resp.StatusCode == http.StatusSwitchingProtocols {
+		out := Response{Status: resp.StatusCode, Header: resp.Header}
+		werr := make(chan error, 1)
+		go func() {
+			for _, w := range r.UpgradeWrites {
+				if _, err := conn.Write(w); err != nil {
+					werr <- err
+					return
+				}
+			}
+			werr <- nil
+		}()
+		got := make([]byte, r.UpgradeExpect)
+		n, rerr := io.ReadFull(br, got)
+		out.Upgraded = got[:n]
+		if rerr != nil {
+			out.Err = rerr
+		} else if e := <-werr; e != nil {
+			out.Err = e
+		}
+		return out
+	}
 	body, rerr := io.ReadAll(resp.Body)
 	return Response{Status: resp.StatusCode, Header: resp.Header, Body: body, Err: rerr}
 }
